@@ -476,3 +476,44 @@ func HarnessC08UncomparableSource() {
 	zzverif.Assert(e == nil && d.View().B == 7, "C08 after one watcher finished the other's update was not installed")
 	zzverif.Reached("c08-uncomparable-end")
 }
+
+// HarnessC08EventsConsumer: a goroutine consuming Events() while reports arrive faster than it
+// reads never wedges the monitor: every report is installed, shutdown leaves nothing behind.
+func HarnessC08EventsConsumer() {
+	verifyLog = nil
+	def := hcfg{}
+	src := &hwsrc{hsrc{name: "s0", init: hval{setA: true, a: 0}}}
+	ctx, cancel := context.WithCancel(context.Background())
+	d, err := Config(ctx, &def, src)
+	if err != nil {
+		zzverif.Fail("C04 Config failed on a valid stack")
+		cancel()
+		return
+	}
+	cctx, ccancel := context.WithCancel(ctx)
+	go func() {
+		zzverif.Daemon()
+		zzverif.Quiesce()
+		ccancel()
+	}()
+	consumed := make(chan struct{})
+	go func() {
+		defer close(consumed)
+		for i := 0; i < 2; i++ {
+			select {
+			case <-d.Events():
+			case <-cctx.Done():
+				return
+			}
+		}
+	}()
+	for i := 1; i <= 3; i++ {
+		e := src.wa.BlockingReportNewValue(ctx, mkValue(src.t, hval{setA: true, a: int64(i)}))
+		zzverif.Assert(e == nil && d.View().A == int64(i), "C08 a report was not installed while Events() is being consumed")
+	}
+	<-consumed
+	cancel()
+	zzverif.Quiesce()
+	zzverif.Assert(zzverif.NumParked() == 0, "C08 background goroutines are still alive after shutdown: "+zzverif.ParkedDesc())
+	zzverif.Reached("c08-events-end")
+}
